@@ -119,3 +119,26 @@ def errval_program(kind, catcher, level, via, callstyle="plain"):
         ss.append(p.callstat(p.call(p.id("caller"), [])))
     ss.append(p.emit([p.str("after"), p.id("x")]))
     return p, p.block(ss)
+
+
+def depth_program(target, catcher="pcall", raise_depth=3):
+    """a protected call whose own frame sits at call depth `target`, failing raise_depth frames
+    deeper; afterwards every enclosing activation must still be there and return normally"""
+    p = Prog()
+    deeper = p.func(["k"], p.block([p.if_([p.bin("==", p.id("k"), p.num(0))], [p.block([p.callstat(p.call(p.id("error"), [p.str("E")]))])]),
+                                    p.ret([p.bin("+", p.num(1), p.call(p.id("deeper"), [p.bin("-", p.id("k"), p.num(1))]))])]))
+    if catcher == "pcall":
+        caught = p.call(p.id("pcall"), [p.id("deeper"), p.num(raise_depth)])
+    else:
+        caught = p.call(p.id("xpcall"), [p.func([], p.block([p.ret([p.call(p.id("deeper"), [p.num(raise_depth)])])])),
+                                         p.func(["m"], p.block([p.ret([p.bin("..", p.str("h:"), p.id("m"))])]))])
+    rec = p.func(["d"], p.block([
+        p.local(["mine"], [p.bin("*", p.id("d"), p.num(10))]),
+        p.if_([p.bin("==", p.id("d"), p.num(target))], [p.block([p.emit([p.str("caught"), p.id("d"), caught]), p.ret([p.id("mine")])])]),
+        p.local(["r"], [p.call(p.id("rec"), [p.bin("+", p.id("d"), p.num(1))])]),
+        p.emit([p.str("back"), p.id("d"), p.id("mine"), p.id("r")]),
+        p.ret([p.bin("+", p.id("r"), p.num(1))])]))
+    ss = [p.localfunction("deeper", deeper), p.localfunction("rec", rec),
+          p.emit([p.str("result"), p.call(p.id("rec"), [p.num(1)])]),
+          p.emit([p.str("again"), p.call(p.id("pcall"), [p.id("rec"), p.num(1)])])]
+    return p, p.block(ss)
